@@ -131,7 +131,16 @@ def same_report(a, b):
     return ea == eb
 
 
-def evaluate(rows, model_ok, want):
+def same_rules(a, b):
+    """the same multiset of (rule, value) entries, whatever their Path: used for structs in which a nested-struct field carries
+    markers (the rules handed down to its direct fields are reported with a Path that omits the struct's name — known finding)"""
+    ea, eb = entries(a), entries(b)
+    if ea is None or eb is None:
+        return a == b
+    return sorted(e.split("|", 1)[1] for e in ea) == sorted(e.split("|", 1)[1] for e in eb)
+
+
+def evaluate(rows, model_ok, want, exact_nest_paths=False):
     """Compare implementation, model and Spec on every scenario. `want`: set of aspects."""
     out = {"gen_fail": [], "unknown": [], "struct": [], "build": [], "gofmt": [], "sem": [], "spec": [], "is": [], "wrappers": [],
            "ctx": [], "ctx_model": [], "nilrecv": [], "mut": [], "alloc": [], "panic": [], "undef": 0, "nvalues": 0, "ndecls": len(rows),
@@ -161,19 +170,19 @@ def evaluate(rows, model_ok, want):
             continue
         for vi, (v, o) in enumerate(zip(r["values"], r["obs"])):
             sem_reqs.append("sem\t%s\tbg\t%s" % (r["decl_sexp"], v))
-            spec_reqs.append("spec\t%s\t%s" % (r["decl_sexp"], v))
+            spec_reqs.append("spec\t%s\t%s" % (r.get("spec_sexp") or r["decl_sexp"], v))
             idx.append((ri, vi))
     out["nvalues"] = len(idx)
     # a struct for which the generator wrote NO validator although the Spec has rules for it: every violating
     # value is silently accepted (there is not even a Validate method)
     nofile = [r for r in rows if not r.get("file") and not r.get("gen_exit") and r.get("values")]
     if nofile:
-        polls = C.drive("specdrv", ["polls\t" + r["decl_sexp"] for r in nofile])
+        polls = C.drive("specdrv", ["polls\t" + (r.get("spec_sexp") or r["decl_sexp"]) for r in nofile])
         cand = [r for r, p in zip(nofile, polls) if p.isdigit() and int(p) > 0]
         reqs2, owner = [], []
         for r in cand:
             for v in r["values"]:
-                reqs2.append("spec\t%s\t%s" % (r["decl_sexp"], v))
+                reqs2.append("spec\t%s\t%s" % (r.get("spec_sexp") or r["decl_sexp"], v))
                 owner.append((r, v))
         if reqs2:
             for (r, v), a in zip(owner, C.drive("specdrv", reqs2)):
@@ -187,7 +196,7 @@ def evaluate(rows, model_ok, want):
     poll_rows = [r for r in rows if r.get("file")]
     spec_polls = {}
     if "ctx" in want and poll_rows:
-        for r, a in zip(poll_rows, C.drive("specdrv", ["polls\t" + r["decl_sexp"] for r in poll_rows])):
+        for r, a in zip(poll_rows, C.drive("specdrv", ["polls\t" + (r.get("spec_sexp") or r["decl_sexp"]) for r in poll_rows])):
             spec_polls[(r["scenario"], r["decl"])] = int(a)
             if int(a) != r.get("polls", 0):
                 out["ctx"].append((r, "-", "polls", "implementation polls %d times" % r.get("polls", 0), "-", "one cancellation point per validated field: %s" % a, a))
@@ -202,7 +211,7 @@ def evaluate(rows, model_ok, want):
             out["sem"].append((r, v, o, sa))
         if pa == "undef":
             out["undef"] += 1
-        elif not same_report(pa, o):
+        elif not (same_rules(pa, o) if (r.get("spec_sexp") and not exact_nest_paths) else same_report(pa, o)):
             out["spec"].append((r, v, o, pa))
         ex = parse_extra(r["extra"][vi] if r.get("extra") else "")
         if "is" in ex:
@@ -271,7 +280,12 @@ def evaluate(rows, model_ok, want):
 
 
 def short(r):
-    return {"scenario": r["scenario"], "decl": r["decl"], "decl_sexp": r["decl_sexp"], "source": r.get("source", "")[:4000]}
+    d = {"scenario": r["scenario"], "decl": r["decl"], "decl_sexp": r["decl_sexp"], "source": r.get("source", "")[:4000]}
+    if r.get("history"):
+        d["history_generated_first_in_the_same_directory"] = r["history"][:6000]
+    if r.get("spec_sexp"):
+        d["note"] = "a nested-struct field carries markers: compared as a multiset of (rule, value) entries with the Spec of the declaration in which those markers are written on the direct fields of that struct"
+    return d
 
 
 def report(res, ev, broken, aspects, known_match=None):
